@@ -60,6 +60,8 @@ const (
 	kFalseShareAccusation
 	kBadPoints // public key share points that do not match the shares
 	kFalsePointsAccusation
+	kBadShareThenSilent  // a wrong share to one member, then nothing more (two misbehaviours composed)
+	kBadPointsThenSilent // wrong public key share points, then nothing more
 )
 
 type vRun struct {
@@ -156,12 +158,15 @@ func vExecute(n, t int, corrupt group.MemberIndex, kind int, victim group.Member
 		m.shares, m.comm, err = m.cm.CalculateMembersSharesAndCommitments()
 		vAssert(err == nil, "phase 3 failed")
 	}
-	if kind == kBadShare {
+	if kind == kBadShare || kind == kBadShareThenSilent {
 		slot := bad.shares.shares[victim]
 		e := vShareTable[slot]
 		delta := vBig(8)
 		vAssume(delta.Sign() > 0 && delta.Cmp(bn256.Order) < 0)
 		vShareTable[slot] = [2]*big.Int{new(big.Int).Mod(new(big.Int).Add(e[0], delta), bn256.Order), e[1]}
+	}
+	if kind == kBadShareThenSilent {
+		bad.stopped = true // its shares and commitments are out; it never speaks again
 	}
 	// phase 4
 	for _, m := range r.members {
@@ -210,18 +215,21 @@ func vExecute(n, t int, corrupt group.MemberIndex, kind int, victim group.Member
 		m.sm = m.qm.InitializeSharing()
 		m.points = m.sm.CalculatePublicKeySharePoints()
 	}
-	if kind == kBadPoints {
+	if kind == kBadPoints || kind == kBadPointsThenSilent {
 		delta := vBig(8)
 		vAssume(delta.Sign() > 0 && delta.Cmp(bn256.Order) < 0)
 		wrong := new(bn256.G2).Add(bad.points.publicKeySharePoints[0], new(bn256.G2).ScalarBaseMult(delta))
 		bad.points = &MemberPublicKeySharePointsMessage{senderID: bad.id, publicKeySharePoints: append([]*bn256.G2{wrong}, bad.points.publicKeySharePoints[1:]...), sessionID: "session"}
+	}
+	if kind == kBadPointsThenSilent {
+		bad.stopped = true // the points message is out; it never speaks again
 	}
 	// phase 8
 	for _, m := range r.members {
 		if !running(m) {
 			continue
 		}
-		pts := vFrom(r, m, func(o *vMemberRun) *MemberPublicKeySharePointsMessage { return o.points }, func(o *vMemberRun) bool { return o.points != nil && !o.stopped })
+		pts := vFrom(r, m, func(o *vMemberRun) *MemberPublicKeySharePointsMessage { return o.points }, func(o *vMemberRun) bool { return o.points != nil && (!o.stopped || kind == kBadPointsThenSilent) })
 		m.sm.MarkInactiveMembers(pts)
 		var err error
 		m.acc2, err = m.sm.VerifyPublicKeySharePoints(pts)
@@ -332,7 +340,7 @@ func vCheck(r *vRun) {
 	for _, m := range honest {
 		vAssert(m.result.GroupPublicKey != nil && vSamePoint(m.result.GroupPublicKey, first.result.GroupPublicKey), "honest members computed different group public keys")
 		ia, dq := m.result.Group.InactiveMemberIndexes(), m.result.Group.DisqualifiedMemberIndexes()
-		vAssert(vSameSet(ia, first.result.Group.InactiveMemberIndexes()) && vSameSet(dq, first.result.Group.DisqualifiedMemberIndexes()), "honest members disagree on who was inactive or disqualified")
+		vAssert(vSameSet(append(append([]group.MemberIndex{}, ia...), dq...), append(append([]group.MemberIndex{}, first.result.Group.InactiveMemberIndexes()...), first.result.Group.DisqualifiedMemberIndexes()...)), "honest members disagree on the set of inactive and disqualified members")
 		for _, h := range honest {
 			for _, x := range ia {
 				vAssert(x != h.id, "an honest member was marked inactive by an honest member")
@@ -341,7 +349,12 @@ func vCheck(r *vRun) {
 				vAssert(x != h.id, "an honest member was disqualified by an honest member")
 			}
 		}
-		vAssert(vSameSet(ia, wantIA) && vSameSet(dq, wantDQ), "the misbehaving member was not marked as the protocol prescribes (silence: inactive; provable misbehaviour: disqualified)")
+		if r.kind == kBadShareThenSilent || r.kind == kBadPointsThenSilent {
+			// the victim has proof (disqualified), the others see silence first (inactive): the member is out either way
+			vAssert(len(ia)+len(dq) == 1 && (len(ia) == 1 && ia[0] == r.corrupt || len(dq) == 1 && dq[0] == r.corrupt), "the misbehaving member, and only it, must be excluded")
+		} else {
+			vAssert(vSameSet(ia, wantIA) && vSameSet(dq, wantDQ), "the misbehaving member was not marked as the protocol prescribes (silence: inactive; provable misbehaviour: disqualified)")
+		}
 	}
 	vReach("agreed")
 	for _, m := range honest {
@@ -369,7 +382,14 @@ func vCheck(r *vRun) {
 // VerifC01_OneCorruptMember: a group of three (threshold 1) in which any one
 // member behaves in any of the modelled ways, aimed at either honest member.
 func VerifC01_OneCorruptMember() {
-	kind := vRange(kSilentFromStart, kFalsePointsAccusation)
+	kind := vRange(kSilentFromStart, kBadPointsThenSilent)
+	if vThorough() {
+		corrupt := group.MemberIndex(vRange(1, 4))
+		victim := group.MemberIndex(vRange(1, 4))
+		vAssume(victim != corrupt)
+		vCheck(vExecute(4, 1, corrupt, kind, victim))
+		return
+	}
 	corrupt := group.MemberIndex(vRange(1, 3))
 	victim := group.MemberIndex(vRange(1, 3))
 	vAssume(victim != corrupt)
